@@ -136,7 +136,7 @@ def collect(ctx, n_ir, rounds_max):
 
 def run(ctx):
     status = coqbuild.prove("C08", THEOREMS)
-    agg, items, corr, work = collect(ctx, 25 if ctx.quick else 300, 4)
+    agg, items, corr, work = collect(ctx, 25 if ctx.quick else 900, 4)
     for cls, det, ir in items:
         ctx.item(cls, {"stage": "repeated emit -> text -> parse rounds on the implementation", "clause": cls,
                        "input": T.jsonable(ir) if ir else None, "detail": det})
